@@ -2007,8 +2007,41 @@ def erase_new_records(prog, known, attr_reads=None):
             if isinstance(x, ast.FunctionDef):
                 funcs.setdefault(x.name, []).append(x)
     rtype = {}        # id(FunctionDef) -> 'R' | ('list', 'R')
+    # constant tables of records: NAME = {key: R(..), ...} at module or class level, never written through
+    tables, owner = {}, {}
+    written = set()
+    for t in trees:
+        for x in ast.walk(t):
+            if isinstance(x, ast.Attribute) and isinstance(x.ctx, (ast.Store, ast.Del)):
+                written.add(x.attr)
+            elif isinstance(x, ast.Subscript) and isinstance(x.ctx, (ast.Store, ast.Del)) and isinstance(x.value, (ast.Attribute, ast.Name)):
+                written.add(x.value.attr if isinstance(x.value, ast.Attribute) else x.value.id)
+            elif isinstance(x, ast.Call) and isinstance(x.func, ast.Attribute) and x.func.attr in ('update', 'setdefault', 'pop', 'clear', 'popitem') \
+                    and isinstance(x.func.value, (ast.Attribute, ast.Name)):
+                written.add(x.func.value.attr if isinstance(x.func.value, ast.Attribute) else x.func.value.id)
+        for holder in [t] + [c for c in ast.walk(t) if isinstance(c, ast.ClassDef)]:
+            cname = holder.name if isinstance(holder, ast.ClassDef) else None
+            for x in holder.body:
+                if isinstance(x, ast.Assign) and len(x.targets) == 1 and isinstance(x.targets[0], ast.Name) \
+                        and isinstance(x.value, ast.Dict) and x.value.values and all(
+                            isinstance(v, ast.Call) and isinstance(v.func, ast.Name) and v.func.id in recs for v in x.value.values) \
+                        and len({v.func.id for v in x.value.values}) == 1:
+                    nm = x.targets[0].id
+                    if sum(1 for y in holder.body if isinstance(y, ast.Assign) and any(isinstance(z, ast.Name) and z.id == nm for z in y.targets)) == 1:
+                        tables[(cname, nm)] = ('list', x.value.values[0].func.id)
+            if isinstance(holder, ast.ClassDef):
+                for f_ in holder.body:
+                    if isinstance(f_, ast.FunctionDef):
+                        owner[id(f_)] = holder.name
+    tables = {k: v for k, v in tables.items() if k[1] not in written}
 
     def typ(e, env):
+        if isinstance(e, ast.Attribute) and isinstance(e.value, ast.Name):
+            k_ = (env.get('@cls') if e.value.id in ('self', 'cls') else e.value.id, e.attr)
+            if k_ in tables:
+                return tables[k_]
+        if isinstance(e, ast.Name) and (None, e.id) in tables and e.id not in env:
+            return tables[(None, e.id)]
         if isinstance(e, ast.Call):
             f = e.func
             name = f.id if isinstance(f, ast.Name) else f.attr if isinstance(f, ast.Attribute) else None
@@ -2074,6 +2107,8 @@ def erase_new_records(prog, known, attr_reads=None):
                 ts = ts - {('empty',)}
                 if len(ts) == 1 and None not in ts:
                     new[name] = next(iter(ts))
+            if id(fn) in owner:
+                new['@cls'] = owner[id(fn)]
             if new == env:
                 break
             env = new
